@@ -163,6 +163,14 @@ pub fn reported_range(r: &RunSpec, o: &RunOutcome) -> Option<(u64, u64)> {
 
 /// |printed - p/q| <= half a unit in the last place + relative slack for f64 evaluation
 pub fn decimal_ok(printed: &str, p: u128, q: u128, decimals: u32) -> bool {
+    decimal_check(printed, p, q, decimals, false)
+}
+
+/// `exact_if_dyadic`: for figures the program obtains by ONE floating-point division of two integers (a mean
+/// = sum / len, possibly scaled by a constant whose quotient stays representable): if the exact value is a
+/// dyadic rational the division is exact and the rendering is determined. Not for figures computed through an
+/// inexact intermediate (a share = ratio x 100): there the half-unit tolerance is all the statement supports.
+pub fn decimal_check(printed: &str, p: u128, q: u128, decimals: u32, exact_if_dyadic: bool) -> bool {
     if q == 0 {
         // mean over nothing: the program prints NaN or 0.00; statement silent
         return true;
@@ -185,7 +193,7 @@ pub fn decimal_ok(printed: &str, p: u128, q: u128, decimals: u32) -> bool {
         }
         let g = gcd(p, q).max(1);
         let (pr, qr) = (p / g, q / g);
-        if qr.is_power_of_two() && qr <= (1u128 << 40) && pr < (1u128 << 52) {
+        if exact_if_dyadic && qr.is_power_of_two() && qr <= (1u128 << 40) && pr < (1u128 << 52) {
             let exact = pr as f64 / qr as f64;
             let d = decimals as usize;
             let even = format!("{:.*}", d, exact);
@@ -262,7 +270,8 @@ pub fn compare_stats(pfx: &str, ex: &StatsExpect, x: &StatsObs, opts: &StatsOpts
     }
     if opts.decimals {
         let d = |what: &str, printed: &str, p: u128, q: u128, dec: u32, v: &mut Vec<Violation>| {
-            if !decimal_ok(printed, p, q, dec) {
+            let mean = what.starts_with("avg-") && what != "avg-value-per-output";
+            if !decimal_check(printed, p, q, dec, mean) {
                 v.push(viol(format!("{}/{}", pfx, what), format!("{}: report prints {}, exact value is {}/{} = {:.10}", what, printed, p, q, if q > 0 { p as f64 / q as f64 } else { 0.0 })));
             }
         };
